@@ -294,6 +294,18 @@ generic = [
     ("boxed_generic", "fn bx<N: ArrayLength>() -> Box<GenericArray<u64, N>> { GenericArray::default_boxed() }",
      "let _: Box<GenericArray<u64, U9>> = bx();", "let _: Box<GenericArray<u32, U9>> = bx();"),
 ]
+generic += [
+    ("send_param", "fn ship<T: Send, N: ArrayLength>(a: GenericArray<T, N>) { need_send(a) } fn ship_it<T: Send, N: ArrayLength>(a: GenericArray<T, N>) { need_send(a.into_iter()) }",
+     "ship(arr![1u8, 2]); ship_it(arr![String::new()]);", "ship(arr![Rc::new(1u8)]); ship_it(arr![Rc::new(1u8)]);"),
+    ("sync_param", "fn share<T: Sync, N: ArrayLength>(a: &GenericArray<T, N>) { need_sync(a) } fn share_it<T: Sync, N: ArrayLength>(a: GenericArray<T, N>) { need_sync(&a.into_iter()) }",
+     "share(&arr![1u8, 2]); share_it(arr![1u8]);", "share(&arr![Cell::new(1u8)]); share_it(arr![Cell::new(1u8)]);"),
+    ("send_struct", "struct Buf<T, N: ArrayLength> { buf: GenericArray<T, N> } fn spawn<T: Send + 'static, N: ArrayLength + 'static>(b: Buf<T, N>) { std::thread::spawn(move || drop(b.buf)).join().unwrap(); }",
+     "spawn(Buf { buf: arr![1u8, 2, 3] });", "spawn(Buf { buf: arr![Rc::new(1u8)] });"),
+    ("sync_static_ref", "fn scoped<N: ArrayLength>(a: &GenericArray<u64, N>) -> u64 { std::thread::scope(|s| s.spawn(|| a.iter().sum::<u64>()).join().unwrap()) }",
+     "let _ = scoped(&arr![1u64, 2, 3]);", "let _ = scoped(&arr![1u32, 2, 3]);"),
+    ("copy_clone_param", "fn dup<T: Copy, N: ArrayLength>(a: GenericArray<T, N>) -> (GenericArray<T, N>, GenericArray<T, N>) where N::ArrayType<T>: Copy { (a, a) } fn cl<T: Clone, N: ArrayLength>(a: &GenericArray<T, N>) -> GenericArray<T, N> { a.clone() }",
+     "let _ = dup(arr![1u8, 2]); let _ = cl(&arr![String::new()]);", "let _ = dup(arr![String::new()]); let _ = cl(&arr![NoClone]);"),
+]
 for name, top, acc, rej in generic:
     pair("generic-length", f"generic_{name}", acc, rej, "Lk", toplevel=GEN_TOP + top + "\n")
 
@@ -359,6 +371,11 @@ c20 = [
     ("box_infer", "let t = box_arr![1; U6]; let u = box_arr![1; 6]; let _: i32 = t[0] + u[5]; let w: Box<GenericArray<u64, U2>> = box_arr![1, 2]; let _ = w;"),
     ("large_type_lengths", "let a = arr![0u8; U1000]; let b = arr![0u8; Sum<U1024, U1>]; let c = box_arr![0u16; Exp<U10, U4>]; let _ = (a.len(), b.len(), c.len());"),
 ]
+for cnt in (100, 126, 128, 255, 256):
+    lst = ", ".join(str(i % 251) + "u8" for i in range(cnt))
+    c20.append((f"long_list_{cnt}", f"let a = arr![{lst}]; let b = box_arr![{lst},]; assert_eq!(a.len(), {cnt}); assert_eq!(b.len(), {cnt});"))
+c20.append(("type_lengths_without_const", "let a = arr![7u8; Sum<U1024, U1>]; let b = arr![7u8; Prod<U100, U11>]; const C: GenericArray<u16, Prod<U500, U3>> = arr![1u16; Prod<U500, U3>]; let d = box_arr![0u8; Prod<U100, U11>]; let _ = (a.len(), b.len(), C.len(), d.len());"))
+c20.append(("type_repeat_in_const", "const A: GenericArray<u8, U0> = arr![1u8; U0]; const B: GenericArray<u32, U7> = arr![9u32; U7]; static S: GenericArray<(u8, u16), U4> = arr![(1u8, 2u16); U4]; const U: GenericArray<(), U3> = arr![(); U3]; let _ = (A, B, S.len(), U);"))
 for name, body in c20:
     probe("C20", "probe-arrmac", "probe_arr_" + name, body, toplevel=SLOT)
 
